@@ -20,7 +20,10 @@
                           ParametersFromMap (fix C19-9)
     `params_revalidate`   Parameters objects: UnmarshalJSON = literal codec followed by the constructor; the literal of an
                           accepted object is accepted again and gives the same object
-  Outside the model (round-trip PROBES on the real code only): the text of a `Scale`, of a nested `ckks.Parameters`,
+    `scaleInt_roundtrip`  the `DefaultScale` text for integer scales < 2^128 and moduli < 2^64 (decimal text exact, tied by the
+                          `scale_json` lines; decoder mantissas 128 / 64 bits); `scale_mod_needs_64_bits`: a binary64 decoder
+                          rounds the modulus 2^53+1 to 2^53
+  Outside the model (round-trip PROBES on the real code only): non-integer scales, the text of a nested `ckks.Parameters`,
   `dft.MatrixLiteral`, `mod1.ParametersLiteral` (opaque `blob`s here), float ⇄ text exactness, ckks/bgv literals.
 -/
 import Lattigo.Proofs.ParamsCodec
@@ -87,6 +90,51 @@ example : decodeBtpLit (encodeBtpLit ⟨some 0, some [], some (.ternary 0 192), 
       some 0, some 0, some ⟨none, 28⟩, 2, none, some 16, none, some 0, none⟩ := by
   rfl
 
+/-! ### rlwe.Scale inside the parameter encodings (integer values and moduli) -/
+
+theorem roundMant_id (p n : Nat) (h : n < 2 ^ p) : roundMant p n = n := by
+  unfold roundMant
+  have hb : roundMant.len64' n ≤ p := by
+    unfold roundMant.len64'
+    by_cases h0 : n = 0
+    · simp [h0]
+    · simp only [h0, if_false]
+      have := (Nat.log2_lt h0).mpr h
+      omega
+  simp [hb]
+
+/-- **scaleInt_roundtrip** — `Scale.UnmarshalJSON(Scale.MarshalJSON(s)) = s` for an integer scale below `2^128` with no
+    modulus or a non-zero modulus below `2^64` (every plaintext modulus): the text holds all digits, the decoder's
+    mantissas (128 bits for `Value`, 64 for `Mod`) hold all bits. This is the `DefaultScale` field of the encodings of
+    rlwe / bgv `Parameters`. -/
+theorem scaleInt_roundtrip (s : ScaleInt) (hv : s.value < 2 ^ 128)
+    (hm : ∀ m, s.mod = some m → 0 < m ∧ m < 2 ^ 64) :
+    decodeScaleInt 128 64 (encodeScaleInt s) = s := by
+  cases s with
+  | mk v m =>
+    simp only at hv hm
+    unfold decodeScaleInt encodeScaleInt
+    simp only [roundMant_id 128 v hv]
+    cases m with
+    | none => simp [roundMant_id 64 0 (by decide)]
+    | some x =>
+      obtain ⟨h0, h1⟩ := hm x rfl
+      have hx : roundMant 64 x = x := roundMant_id 64 x h1
+      have hne : x ≠ 0 := by omega
+      simp [hx, hne]
+
+example : decodeScaleInt 128 64 (encodeScaleInt ⟨2 ^ 120 + 1, some (2 ^ 64 - 59)⟩) = ⟨2 ^ 120 + 1, some (2 ^ 64 - 59)⟩ := by
+  decide +kernel
+
+/-- **scale_mod_needs_64_bits** — the mantissa width of the `Mod` decoder matters: a decoder that goes through a binary64
+    (53 bits: `strconv.ParseFloat(·, 64)`, the seeded regression) turns the modulus `2^53 + 1` into `2^53` and `2^61 − 1`
+    into `2^61`, while `Value` and everything `Equal` looked at is unchanged. -/
+theorem scale_mod_needs_64_bits :
+    decodeScaleInt 128 53 (encodeScaleInt ⟨1, some (2 ^ 53 + 1)⟩) = ⟨1, some (2 ^ 53)⟩ ∧
+    decodeScaleInt 128 53 (encodeScaleInt ⟨1, some (2 ^ 61 - 1)⟩) = ⟨1, some (2 ^ 61)⟩ ∧
+    decodeScaleInt 128 53 (encodeScaleInt ⟨1, some 65537⟩) = ⟨1, some 65537⟩ := by
+  decide +kernel
+
 /-- **params_revalidate** — decoding a `Parameters` object re-runs the constructor on its literal: for an accepted
     object that literal is accepted again, by every oracle and with any fuel, and yields the same object. -/
 theorem params_revalidate (o : Oracle) (fuel fuel' : Nat) (lit : Literal) (a : Accepted)
@@ -107,4 +155,6 @@ end Lattigo.Params
 #print axioms Lattigo.Params.rlweLit_roundtrip_exact
 #print axioms Lattigo.Params.btp_roundtrip
 #print axioms Lattigo.Params.btpLit_roundtrip
+#print axioms Lattigo.Params.scaleInt_roundtrip
+#print axioms Lattigo.Params.scale_mod_needs_64_bits
 #print axioms Lattigo.Params.params_revalidate
